@@ -1,16 +1,19 @@
 (* Property C04: storage is transparent.  Pinned: the codec layer (packing of 2/4/9-state symbols,
    LEB128, meta-data word), the value stream (load_fixed_stream), the block layout (region_found,
-   region_decodes), loading over any list of blocks (load_signal_blocks) and the rendering of every
-   stored entry (entry_render, observe_entries), and the end-to-end theorem storage_transparent_partial with
-   its corollary storage_independent_of_segmentation.
-   The end-to-end theorem covers bit-vector signals of every width >= 1 written through the VCD text path
-   (vcd_value_change) and through the raw path (raw_value_change with correctly packed data, GHW).
-   Real-valued and string-valued signals have the same end-to-end theorem, storage_transparent_rs (VCD text
-   path and doubles handed over as 8 bytes, the GHW / FST path).
-   What the end-to-end theorems do NOT cover (hence the `_partial` name is kept): the division among parser
-   threads (appended_transparent) is proved for bit vectors only; for reals and strings that part is tied by the
-   correspondence check (MANIFEST level_note); and histories beyond the stated size bounds (2^32 time table
-   entries, 4 GiB of data per signal). *)
+   region_decodes), loading over any list of blocks (load_signal_blocks), the rendering of every
+   stored entry (entry_render, observe_entries), and the end-to-end theorems:
+     storage_transparent      bit-vector signals of every width >= 1, written through the VCD text path
+                              (vcd_value_change) and through the raw path (raw_value_change with packed data, GHW);
+     storage_transparent_rs   real-valued and string-valued signals (VCD text path and doubles handed over as 8 bytes);
+     appended_transparent, appended_transparent_rs
+                              the same when the recording was divided among several encoders (parser threads) that
+                              are appended in order;
+     storage_independent_of_segmentation
+                              two stores with different block capacities / compressors report the same.
+   Together they state the property for every signal kind, every segmentation into blocks and every division among
+   threads.  Their premises are the size limits beyond which the real code's u32 length fields wrap (fewer than 2^32
+   time table entries, less than 4 GiB of data per signal), block capacity <= 65536, the LZ4 round-trip law and
+   (reals) that the f64 parser yields 8 bytes. *)
 From WV Require Import Model.Base Model.Bits Model.Leb128 Model.WaveMem Proofs.BitsProofs Proofs.LebProofs Proofs.WaveMemProofs Proofs.StoreProofs Proofs.EncoderProofs Proofs.RealStringProofs Proofs.RealStringEnc.
 From WV Require Import Spec.TimeSpec Spec.StoreSpec Proofs.TimeTableProofs.
 Open Scope N_scope.
@@ -87,8 +90,7 @@ Check observe_entries :
    (Spec/StoreSpec.v `recorded`): index into the accepted time table, least kind holding the value, its
    characters; consecutive equal values once.  Size side conditions: fewer than 2^32 time table entries and
    less than 4 GiB of data for the signal (beyond that the real code's u32 length fields wrap). *)
-Definition storage_transparent_partial := storage_transparent.
-Check storage_transparent_partial :
+Check storage_transparent :
   forall (parse_f64 : list byte -> option (list byte)) (lz_compress : list byte -> list byte)
          (lz_decompress : list byte -> nat -> option (list byte)),
   (forall d n, (length d <= n)%nat -> lz_decompress (lz_compress d) n = Some d) ->
@@ -121,9 +123,29 @@ Check storage_transparent_rs :
   run_ops parse_f64 lz_compress cap (enc_new tpes) ops = Ok e ->
   enc_finish lz_compress e = Ok (blocks, ttb) -> N.of_nat (length ttb) < 4294967296 ->
   exists R sig,
-    Forall2 (gdecodes parse_f64 str) R (recorded_rs id ops [] false) /\
+    Forall2 (gdecodes parse_f64 str) R (recorded_rs id ops [] false) /\ Forall (payload_ok str) R /\
     load_signal lz_decompress blocks id (rs_tpe str) = Ok sig /\
     observe_signal sig = Ok (map (fun a : N * list byte => (fst a, if str then KString else KReal, snd a)) (gdedup R)).
+
+Check appended_transparent_rs :
+  forall (parse_f64 : list byte -> option (list byte)),
+  (forall r le, parse_f64 r = Some le -> length le = 8%nat) ->
+  forall (lz_compress : list byte -> list byte) (lz_decompress : list byte -> nat -> option (list byte)),
+  (forall d n, (length d <= n)%nat -> lz_decompress (lz_compress d) n = Some d) ->
+  forall cap, 1 <= cap -> cap <= 65536 -> forall id str tpes
+         (opss : list (list enc_op)) (encs : list encoder) first others e blocks ttb,
+  nth_error tpes id = Some (rs_tpe str) ->
+  Forall2 (fun ops en => run_ops parse_f64 lz_compress cap (enc_new tpes) ops = Ok en) opss encs ->
+  Forall (fun ops => Forall (rs_op_ok id str) ops /\ ops_cost id ops < 4294967264) opss ->
+  encs = first :: others ->
+  append_all lz_compress first others = Ok e ->
+  enc_finish lz_compress e = Ok (blocks, ttb) -> N.of_nat (length ttb) < 4294967296 ->
+  exists Rs sig,
+    Forall2 (fun R ops => Forall2 (gdecodes parse_f64 str) R (recorded_rs id ops [] false)) Rs opss /\
+    load_signal lz_decompress blocks id (rs_tpe str) = Ok sig /\
+    observe_signal sig
+    = Ok (map (fun a : N * list byte => (fst a, if str then KString else KReal, snd a))
+              (gdedup (gcat_shift (combine Rs (map (fun ops => N.of_nat (length (accepted (times_of ops)))) opss)) 0))).
 
 (* two stores with different block capacities / compressors fed the same history report the same changes *)
 Check storage_independent_of_segmentation :
@@ -183,7 +205,8 @@ Print Assumptions load_reals_stream.
 Print Assumptions observe_reals.
 Print Assumptions load_strings_stream.
 Print Assumptions observe_strings.
-Print Assumptions storage_transparent_partial.
+Print Assumptions storage_transparent.
+Print Assumptions appended_transparent_rs.
 Print Assumptions storage_transparent_rs.
 Print Assumptions storage_independent_of_segmentation.
 Print Assumptions load_fixed_stream.
